@@ -45,7 +45,7 @@ func init() {
 		NumCases:   func(tier string) int { return len(c08Cases(tier)) + pick(tier, 300, 20000) + pick(tier, 120, 4000) },
 		Run:        runC08,
 		Floor: func(tier string, st map[string]int64) string {
-			for _, k := range []string{"op.FlushRevert", "c08.revert-past-first", "c08.revert-to-previous", "c08.flush-after-revert", "c08.memonly-refused", "rootscan.iters", "c08.collwrite-before-revert", "c08.custom-comparator-cases", "iterators-open-across-revert", "c08.no-callback-cases"} {
+			for _, k := range []string{"op.FlushRevert", "c08.revert-past-first", "c08.revert-to-previous", "c08.flush-after-revert", "c08.memonly-refused", "rootscan.iters", "c08.collwrite-before-revert", "c08.custom-comparator-cases", "iterators-open-across-revert", "c08.no-callback-cases", "c08.magic-laden-value-cases"} {
 				if st[k] == 0 {
 					return "no " + k + " observed"
 				}
@@ -73,6 +73,12 @@ func runC08(ctx *Ctx, idx int) Result {
 		hc.KeyClass = gen.KeysShort
 	}
 	hc.Mix = Mix{Set: 10, Delete: 3, GetItem: 2}
+	if idx%4 == 2 {
+		// values laden with the magic markers, plausible trailers and byte-exact copies of earlier root
+		// records of the same file: the backward scan of a revert has to cross them
+		hc.ValClass = gen.ValsMagic
+		ctx.Stats["c08.magic-laden-value-cases"]++
+	}
 	if g.variation%2 == 1 {
 		hc.CustomCmp, hc.KeyClass = true, gen.KeysDigits // comparators come back through KeyCompareForCollection after a revert
 		ctx.Stats["c08.custom-comparator-cases"]++
@@ -150,6 +156,10 @@ func runC08Random(ctx *Ctx, idx int, r *gen.R) Result {
 	if hc.CustomCmp {
 		hc.KeyClass = gen.KeysDigits
 		ctx.Stats["c08.custom-comparator-cases"]++
+	}
+	if idx%4 == 2 {
+		hc.ValClass = gen.ValsMagic
+		ctx.Stats["c08.magic-laden-value-cases"]++
 	}
 	h := NewHist(r, cfg, hc, fmt.Sprintf("c08r-%d", idx))
 	e := h.E
